@@ -494,8 +494,12 @@ impl Source {
     /// Return the Vcs used by the package
     pub fn vcs(&self) -> Option<crate::vcs::Vcs> {
         for (name, value) in self.0.items() {
-            if name.starts_with("Vcs-") && name != "Vcs-Browser" {
-                return crate::vcs::Vcs::from_field(&name, &value).ok();
+            // Vcs::from_field takes the name of the VCS, without the "Vcs-" prefix
+            match name.strip_prefix("Vcs-") {
+                Some(kind) if kind != "Browser" => {
+                    return crate::vcs::Vcs::from_field(kind, &value).ok();
+                }
+                _ => {}
             }
         }
         None
